@@ -27,13 +27,9 @@ class StarterFacts:
             if root is None:
                 continue
             for e in iter_own(root):
-                if isinstance(e, ast.Call) and isinstance(e.func, ast.Attribute) and e.func.attr in ("prepare", "start") and not e.args:
-                    base = e.func.value
-                    if isinstance(base, ast.Name) and a.r.expr_type(f, base) is None or True:
-                        # exclude task-group .start(...)
-                        if isinstance(base, ast.Name) and base.id in ("tg", "task_group"):
-                            continue
-                        self.phase_calls[e.func.attr].append((n, e))
+                # the component's own prepare() / start() take no arguments (tg.start(...) does)
+                if isinstance(e, ast.Call) and isinstance(e.func, ast.Attribute) and e.func.attr in ("prepare", "start") and not e.args and not e.keywords:
+                    self.phase_calls[e.func.attr].append((n, e))
         self.phase_awaits = {"prepare": [], "start": []}
         for ph, lst in self.phase_calls.items():
             for cn, call in lst:
@@ -221,5 +217,5 @@ def run(ctx) -> None:
     # ------------------------------------------------------------------ R5 ownership by the caller's context
     include_rules(ctx, "c02", "C05.R5", only=("C02.R4",))
     # ------------------------------------------------------------------ R7 liveness premise: waiting has no lost wake-up
-    include_rules(ctx, "c06", "C05.R7", only=("C06.R1", "C06.R4", "C06.R7"))
+    include_rules(ctx, "c06", "C05.R7", only=("C06.R1", "C06.R2", "C06.R4", "C06.R7"))
     rep.assume("anyio task group: `async with` exits only after every child task finished; liveness additionally needs a fair event loop (not decided)")
